@@ -88,6 +88,10 @@ fn bigexcess(kind: char, regime_beyond: bool) -> Scenario {
                 let _ = c.get(&i);
             }
             c.sync();
+            // ... and so is the insert of a new key while the excess may still be there
+            c.insert(5000, 1);
+            c.sync();
+            c.sync();
             let held: u64 = c.iter().map(|e| *e.value() as u64).sum();
             (held, c.weighted_size(), c.entry_count())
         } else {
@@ -97,11 +101,18 @@ fn bigexcess(kind: char, regime_beyond: bool) -> Scenario {
                 c.insert(i, 1);
             }
             c.insert(n - 1, grow);
+            // the very next operation is the insert of a new key: one eviction batch
+            // (100) has not removed the excess of 799 yet
+            c.insert(6000, 1);
             for i in 0..12 {
                 let _ = c.get(&i);
             }
             for i in 0..4 {
                 c.insert(n - 2 - i, 1);
+            }
+            // ... and the insert of new keys while the excess may still be there
+            for i in 0..4 {
+                c.insert(5000 + i, 1);
             }
             let held: u64 = c.iter().map(|(_, v)| *v as u64).sum();
             (held, c.weighted_size(), c.entry_count())
